@@ -97,3 +97,18 @@ Theorem C02_wrong_password_never_accepted_at_each_of_the_20_suites :
   all_suites (fun _ _ _ _ CS => CurveLaws CS -> C02_wrong_password_never_accepted_statement CS).
 Proof. apply at_the_20_suites. exact C02_wrong_password_never_accepted. Qed.
 Print Assumptions C02_wrong_password_never_accepted_at_each_of_the_20_suites.
+
+
+(* further theorems above, restated at the 20 suites *)
+
+Definition C02_oprf_output_is_hash_of_password_and_key_statement {E Sc Pk Sk} (CS : Suite E Sc Pk Sk) : Prop :=
+  forall input r k P, ve CS P -> vs CS r -> vs CS k ->
+    voprf_finalize (hash CS) (oprf CS) r input (o_mul (oprf CS) (o_mul (oprf CS) P r) k) =
+    match i2osp_nat 2 (length input) with
+    | None => Err (ELibrary (LOprfError OInput))
+    | Some len => Ok (h_hash (hash CS) (len ++ input ++ be_bytes 2 (N.of_nat (o_Noe (oprf CS))) ++
+                                        o_ser_e (oprf CS) (o_mul (oprf CS) P k) ++ STR_FINALIZE))
+    end.
+Theorem C02_oprf_output_is_hash_of_password_and_key_at_each_of_the_20_suites : all_suites (fun _ _ _ _ CS => CurveLaws CS -> C02_oprf_output_is_hash_of_password_and_key_statement CS).
+Proof. apply at_the_20_suites_g. exact C02_oprf_output_is_hash_of_password_and_key. Qed.
+Print Assumptions C02_oprf_output_is_hash_of_password_and_key_at_each_of_the_20_suites.
